@@ -246,7 +246,7 @@ class Ref:
             vals = [Fr(x) * sc for x in raw]
             return self._q(vals, [2 * U1 * abs(v) for v in vals], d, t == "A", frozenset([s]), s, leaf=(t == "V"))
         if t == "N":
-            return RN(Fr(node["v"]))
+            return RN(Fr(*node["fr"]) if "fr" in node else Fr(node["v"]))
         self.nops += 1
         self.depth = max(self.depth, depth + 1)
         if t == "neg" or t == "abs":
@@ -711,6 +711,25 @@ def gen_cmp(r, D, dim, err):
         a = g.leaf(dim, "V", s)
         while a["t"] != "V":
             a = g.leaf(rand_dim(r), "V", s)
+        if r.random() < 0.3:
+            # Python's other exact number types: an int that no double equals (beyond 2^53, or beyond the range of doubles
+            # altogether), a Fraction a hair off the double.  The comparison of a quantity with a plain number is the
+            # comparison of two numbers in the quantity's own unit - no conversion, hence no rounding, is involved
+            a = dict(a)
+            which = r.choice(["bigint", "bigint", "fraction", "fraction", "beyond"])
+            sg = r.choice([1, 1, -1])
+            if which == "bigint":
+                a["v"] = sg * float(r.choice([2.0 ** 53, 2.0 ** 63, 2.0 ** 64, 2.0 ** 70, 6.02214076e23, 2.0 ** 53 * 3, 1e22]))
+                n = {"t": "N", "v": int(a["v"]) + r.choice([-1, 0, 1, 1]), "py": True}
+            elif which == "fraction":
+                a["v"] = sg * r.choice([0.1, 0.3, 1.0 / 3.0, 2.5, 1e-5, 123.456, float(a["v"]) if a["v"] else 0.7])
+                fr = Fr(a["v"]) + Fr(r.choice([-1, 0, 1, 1]), 10 ** r.randint(19, 40))
+                if r.random() < 0.3:
+                    fr = Fr(a["v"]).limit_denominator(1000)
+                n = {"t": "N", "v": float(fr), "fr": [fr.numerator, fr.denominator]}
+            else:
+                n = {"t": "N", "v": r.choice([1, -1]) * 10 ** r.choice([309, 400, 1000]), "py": True}
+            return {"t": "cmp", "op": op, "l": a, "r": n} if r.random() < 0.6 else {"t": "cmp", "op": op, "l": n, "r": a}
         z = r.random()
         v2 = a["v"] if z < 0.6 else (a["v"] * (1 + 2.0 ** -r.randint(20, 50)) if z < 0.8 else -a["v"])
         w = r.random()
@@ -767,6 +786,8 @@ def _snap(U, x):
         return ("V", float(x.value).hex(), si.sys_of(x.units.sys), si.dim_of(x.units.dim))
     if isinstance(x, U.UnitArray):
         return ("A", x.value.tobytes().hex(), si.sys_of(x.units.sys), si.dim_of(x.units.dim))
+    if isinstance(x, Fr) or (isinstance(x, int) and abs(x) > 2 ** 53):
+        return ("N", repr(x))
     return ("N", repr(float(x)) if not isinstance(x, bool) else repr(x))
 
 
@@ -776,6 +797,10 @@ def impl_eval(U, node, path=""):
         # plain numbers come as Python numbers or as the numpy scalars the documentation treats as numbers
         # (deterministic choice so that a replay sees the same types)
         v = node["v"]
+        if "fr" in node:
+            return Fr(*node["fr"])
+        if node.get("py"):
+            return v
         import numpy as _np
         pick = (hash(repr(v)) + len(path)) % 5
         if pick == 0:
@@ -835,7 +860,7 @@ def show(n):
         return "%s(%r, '%s'[%s])" % ("UnitValue" if t == "V" else "UnitArray", n["v"],
                                      si.unit_string(n["sys"], n["dim"]), ",".join(n["sys"]))
     if t == "N":
-        return repr(n["v"])
+        return ("Fraction(%d, %d)" % tuple(n["fr"])) if "fr" in n else repr(n["v"])
     if t == "neg":
         return "-(%s)" % show(n["x"])
     if t == "abs":
